@@ -756,18 +756,10 @@ class Solver:
         """
         sets = []
         for st in self.structures:
-            connected_sets = []
-            for _set in sets:
-                for target in st.connected_to:
-                    if target in _set:
-                        _set.add(st)
-                        connected_sets.append(_set)
-            for _set in connected_sets:
-                sets.remove(_set)
-            if len(connected_sets) == 0:
-                sets.append(set([st] + st.connected_to))
-            else:
-                sets.append(set().union(*connected_sets))
+            group = set([st] + st.connected_to)
+            connected_sets = [_set for _set in sets if not _set.isdisjoint(group)]
+            sets = [_set for _set in sets if _set.isdisjoint(group)]
+            sets.append(group.union(*connected_sets))
         solvers = []
         for i, _set in enumerate(sets):
             connections = {
